@@ -5,7 +5,7 @@
    Only statements here; proofs live in Proofs/C02*.v. *)
 From Coq Require Import List NArith ZArith Bool String.
 From GoGit Require Import Base.Out Model.ObjLines Model.Ident Model.Commit Model.Tag
-     Spec.GitFields Spec.ObjWf Proofs.C02Dec Proofs.C02Ident Proofs.C02Commit Proofs.C02Tag Proofs.C02Message.
+     Spec.GitFields Spec.ObjWf Proofs.ObjLinesFacts Proofs.C02Dec Proofs.C02Ident Proofs.C02Commit Proofs.C02Tag Proofs.C02Message Proofs.C02IdentGit.
 Import ListNotations.
 Local Open Scope N_scope.
 
@@ -73,6 +73,34 @@ Theorem C02_message_matches_git : forall raw c g m,
   decode_commit raw = Ok c -> git_log_fields raw = GOk g -> gl_body g = Some m -> c_msg c = m.
 Proof. exact message_matches_git. Qed.
 Print Assumptions C02_message_matches_git.
+
+(* PARTIAL for identities: for every author/committer/tagger value that passes
+   the boolean clauses person_ok (one '<', one '>', in order; no leading blank,
+   no TAB/CR before the trailing blanks of the name) and date_ok (nothing after
+   '>', or exactly " <digits> [+-]hhmm" with digits < 2^63, mm < 60, not -00mm
+   with mm > 0, no further digit), Signature.Decode yields the name, e-mail and
+   raw date that git's split_ident_line / show_ident_date report *)
+Theorem C02_ident_matches_git_partial : forall v,
+  no_lf v = true -> person_ok v = true -> date_ok v = true ->
+  let i := decode_ident v in
+  git_person (Some v) = (id_name i, id_email i, go_date i).
+Proof. exact ident_matches_git. Qed.
+Print Assumptions C02_ident_matches_git_partial.
+
+(* the full statement (no clauses) is false: last-vs-first bracket, blanks around the date *)
+Theorem C02_ident_matches_git_refuted :
+  (let v := str "A <x> <y> 5 +0100" in let i := decode_ident v in
+   git_person (Some v) <> (id_name i, id_email i, go_date i)) /\
+  (let v := str "C <c@d>  7 +0530" in let i := decode_ident v in
+   git_person (Some v) <> (id_name i, id_email i, go_date i)).
+Proof. split; vm_compute; discriminate. Qed.
+Print Assumptions C02_ident_matches_git_refuted.
+
+Example C02_ident_clauses_nonvacuous :
+  let v := str "A U Thor <author@example.com> 1234567890 -0330" in
+  no_lf v = true /\ person_ok v = true /\ date_ok v = true /\
+  git_person (Some v) = (str "A U Thor", str "author@example.com", str "1234567890 -0330").
+Proof. vm_compute. repeat split. Qed.
 
 Definition author_differs (b : bytes) : Prop :=
   exists d g, decode_commit b = Ok d /\ git_log_fields b = GOk g /\
